@@ -555,6 +555,21 @@ def r33_code_deref(sig, body):
     return sig, body, n
 
 
+def r34_unwrap_or_else(sig, body):
+    """R34: `X.unwrap_or_else(|| E)` (X an identifier) -> `(match X { Some(verif_some) => verif_some, None => E })` (std's definition of Option::unwrap_or_else: E is evaluated only for None)"""
+    n = 0
+    while True:
+        m = re.search(r'\b(\w+)\s*\.\s*unwrap_or_else\s*\(\s*\|\s*\|', body)
+        if not m:
+            break
+        op = body.index('(', m.start(1) + len(m.group(1)))
+        cl = _match_paren(body, op)
+        expr = body[m.end():cl].strip()
+        body = body[:m.start()] + '(match %s { Some(verif_some) => verif_some, None => %s })' % (m.group(1), expr) + body[cl + 1:]
+        n += 1
+    return sig, body, n
+
+
 def _stmt_end(body, start):
     """position of the `;` that ends the statement starting at `start` (depth 0 w.r.t. brackets), or -1"""
     mask = rsx.code_mask(body)
@@ -900,6 +915,7 @@ RULES = {
     'R31': r31_loop_break_to_while,
     'R32': r32_stack_assign,
     'R33': r33_code_deref,
+    'R34': r34_unwrap_or_else,
 }
 
 DESCRIPTIONS = {k: (v.__doc__ or '').strip() for k, v in RULES.items()}
